@@ -18,12 +18,9 @@ sys.path.insert(0, HERE)
 
 
 def ensure_deps():
-    deps = os.path.join(HERE, ".deps")
-    if os.path.isdir(os.path.join(deps, "icontract")):
-        return
-    subprocess.run(["/venv/bin/pip", "install", "--quiet", "--no-index", "--find-links",
-                    "/opt/veriftools/wheels", "--target", deps, "icontract"],
-                   stdout=subprocess.DEVNULL, stderr=subprocess.DEVNULL)
+    """Nothing to install: the monitors are plain Python (wrappers, sys.monitoring, the scheduler); the repository's own
+    interpreter /venv/bin/python with PYTHONPATH=/repo is all they need."""
+    return
 
 
 def main():
